@@ -73,10 +73,13 @@ func decodeMatcherFromMap(data any) (ScopesMatcher, error) {
 	typed := map[string]any{}
 
 	if m, ok := data.(map[any]any); ok {
-		// nolint: forcetypeassert
-		// ok if panics
 		for k, v := range m {
-			typed[k.(string)] = v
+			key, ok := k.(string)
+			if !ok {
+				return nil, errorchain.NewWithMessage(heimdall.ErrConfiguration, "invalid structure for scopes matcher")
+			}
+
+			typed[key] = v
 		}
 	} else if m, ok := data.(map[string]any); ok {
 		typed = m
@@ -85,7 +88,13 @@ func decodeMatcherFromMap(data any) (ScopesMatcher, error) {
 	}
 
 	if name, ok := typed["matching_strategy"]; ok {
-		createMatcher, err = matcherFactory(name.(string))
+		strategy, ok := name.(string)
+		if !ok {
+			return nil, errorchain.NewWithMessage(heimdall.ErrConfiguration,
+				"invalid structure for scopes matcher: matching_strategy is not a string")
+		}
+
+		createMatcher, err = matcherFactory(strategy)
 		if err != nil {
 			return nil, err
 		}
@@ -103,9 +112,22 @@ func decodeMatcherFromMap(data any) (ScopesMatcher, error) {
 }
 
 func createMatcherFromValues(createMatcher ScopeMatcherFactory, values any) (ScopesMatcher, error) {
-	scopes := make([]string, len(values.([]any))) // nolint: forcetypeassert
-	for i, v := range values.([]any) {            // nolint: forcetypeassert
-		scopes[i] = v.(string) // nolint: forcetypeassert
+	list, ok := values.([]any)
+	if !ok {
+		return nil, errorchain.NewWithMessage(heimdall.ErrConfiguration,
+			"invalid structure for scopes matcher: values is not a list")
+	}
+
+	scopes := make([]string, len(list))
+
+	for i, v := range list {
+		scope, ok := v.(string)
+		if !ok {
+			return nil, errorchain.NewWithMessage(heimdall.ErrConfiguration,
+				"invalid structure for scopes matcher: scope value is not a string")
+		}
+
+		scopes[i] = scope
 	}
 
 	return createMatcher(scopes)
